@@ -124,13 +124,18 @@ MiscVerdict(e) ==
     [] e.op = "Signbit" -> B2S(e.b = x.neg)
     [] e.op = "Sign" -> IF IsNaN(x) THEN B2S(Panicked(e)) ELSE B2S(~Panicked(e) /\ e.n = SignSem(x))
 
+Zero16 == [i \in 1..16 |-> 0]
 \* C05: Parse / MustParse / UnmarshalText / fmt.Sscan
 ParseVerdict(e) ==
   LET ps == ParseSem(e.s, mode)
       r == Decode(e.r)
       must == e.via = "MustParse"
       agrees == IF ps.val.k = "nan" THEN (IF r.k = "nan" THEN "ok" ELSE "reject") ELSE Agrees(ps.ex, r, mode)
-  IN IF ps.err = "syntax" THEN (IF must THEN B2S(Panicked(e)) ELSE B2S(e.err = "syntax"))
+      untouched == IF Has(e, "prev") THEN e.prev ELSE Zero16       \* the receiver of UnmarshalText / Scan before the call
+  IN IF ps.err = "syntax" THEN (IF must THEN B2S(Panicked(e))
+                               ELSE IF e.err # "syntax" THEN "reject:err"
+                               ELSE IF e.via \in {"UnmarshalText", "Sscan"} /\ e.r # untouched THEN "reject:receiver-written-on-error"
+                               ELSE "ok")
      ELSE IF ps.err = "nan-signed" THEN                          \* a signed NaN literal: the statement leaves it open
           B2S((must /\ Panicked(e)) \/ e.err = "syntax" \/ (e.err = "none" /\ r.k = "nan"))
      ELSE IF must /\ Panicked(e) THEN B2S(ps.err = "range")      \* MustParse cannot return the range error
@@ -138,10 +143,9 @@ ParseVerdict(e) ==
      ELSE IF ~must /\ e.err # ps.err THEN "reject:err"
      \* UnmarshalText and Scan report the range error but have no result to return: the receiver may hold
      \* the infinity or be left as it was (the driver starts from the zero value)
-     ELSE IF ps.err = "range" /\ e.via \in {"UnmarshalText", "Sscan"} /\ e.r = [i \in 1..16 |-> 0] THEN "ok"
+     ELSE IF ps.err = "range" /\ e.via \in {"UnmarshalText", "Sscan"} /\ e.r = untouched THEN "ok"
      ELSE agrees
 
-Zero16 == [i \in 1..16 |-> 0]
 \* C05: the stream scanner (fmt.Fscan with k Decimal arguments on one input; fmt.Sscanf with one verb)
 \* one scanned value against its specified outcome: "ok" / "ok+" / "reject:..."
 ScanValueVerdict(o, rb) ==
